@@ -852,4 +852,539 @@ def exSchemaN : Schema := .mk { types := ["object"], required := ["name", "ratio
 
 example : certFull exEnvN [] 4 (.named "Root") exSchemaN = true := by decide
 
+/-! ### string and array members -/
+
+/-- the string `t` occurs somewhere in the document -/
+inductive StrIn (t : String) : Json → Prop
+  | here : StrIn t (.str t)
+  | inObj (kvs : List (String × Json)) (p : String × Json) (hp : p ∈ kvs) (h : StrIn t p.2) : StrIn t (.obj kvs)
+  | inArr (xs : List Json) (x : Json) (hx : x ∈ xs) (h : StrIn t x) : StrIn t (.arr xs)
+
+/-- `DocOK`, and the document's strings are ASCII (Go's `len` counts bytes: known finding K1) -/
+structure DocOKS (env : Env) (j : Json) : Prop where
+  base : DocOK env j
+  strs : ∀ t, StrIn t j → C06.IsAscii t
+
+theorem DocOKS.ofMember {env : Env} {kvs : List (String × Json)} (h : DocOKS env (.obj kvs)) (p : String × Json) (hp : p ∈ kvs) :
+    DocOKS env p.2 := ⟨h.base.ofMember p hp, fun t ht => h.strs t (.inObj kvs p hp ht)⟩
+
+theorem DocOKS.ofElem {env : Env} {xs : List Json} (h : DocOKS env (.arr xs)) (x : Json) (hx : x ∈ xs) : DocOKS env x :=
+  ⟨h.base.ofElem x hx, fun t ht => h.strs t (.inArr xs x hx ht)⟩
+
+theorem valid_str_parts (defs : Spec.Defs) (ps : Schema) (j : Json) (F : Nat) (hr : ps.node.ref = "")
+    (ht : ps.node.types = ["string"]) (h : Spec.valid F defs ps j = true) :
+    ∃ t, j = .str t ∧ Spec.lengthOK ps.node.minLength ps.node.maxLength t = true ∧ Spec.patternOK ps.node.pattern t = true := by
+  have hty := valid_scalar defs ps j F hr "string" ht h
+  cases F with
+  | zero => simp [Spec.valid] at h
+  | succ F =>
+    simp only [Spec.valid, hr, ne_eq, not_true_eq_false, ↓reduceIte, Bool.and_eq_true] at h
+    cases j <;> simp [Spec.hasType] at hty
+    rename_i t
+    have := h.2
+    simp only [Bool.and_eq_true] at this
+    exact ⟨t, rfl, this.1.1, this.1.2⟩
+
+/-- the value a string member decodes to passes the check built from its schema's limits and pattern -/
+theorem str_decode_passes (env : Env) (defs : Spec.Defs) (ty : GoTy) (ps : Schema) (nl : Bool) (mn mx : Int) (pat : String)
+    (j : Json) (F g : Nat) (v : GoVal)
+    (hr : ps.node.ref = "") (hb : strBase ty = some nl) (ht : ps.node.types = ["string"])
+    (hmn : mn = ps.node.minLength) (hmx : mx = ps.node.maxLength) (hp : pat = ps.node.pattern)
+    (hascii : ∀ t, j = .str t → C06.IsAscii t)
+    (hv : Spec.valid F defs ps j = true) (hd : decode .json env g ty j = .ok v) :
+    checkString v mn mx pat nl = true := by
+  obtain ⟨t, rfl, hlen, hpat⟩ := valid_str_parts defs ps j F hr ht hv
+  have hpass : stringPasses mn mx pat t = true := by
+    rw [hmn, hmx, hp]
+    exact (C06.string_check_exact_ascii _ _ _ t (hascii t rfl)).mpr ⟨hlen, hpat⟩
+  cases ty with
+  | string =>
+    simp [strBase] at hb; subst hb
+    cases g with
+    | zero => simp [decode] at hd
+    | succ g =>
+      simp only [decode] at hd
+      injection hd with hd; subst hd
+      simp [checkString, derefIf, hpass]
+  | ptr t' =>
+    cases t' with
+    | string =>
+      simp [strBase] at hb; subst hb
+      cases g with
+      | zero => simp [decode] at hd
+      | succ g =>
+        have : decode .json env (g + 1) (.ptr .string) (.str t) = (decode .json env g .string (.str t)).map .ptrTo := by
+          simp [decode]
+        rw [this] at hd
+        cases g with
+        | zero => simp [decode, Except.map] at hd
+        | succ g =>
+          simp only [decode, Except.map] at hd
+          injection hd with hd; subst hd
+          simp [checkString, derefIf, hpass]
+    | _ => simp [strBase] at hb
+  | _ => simp [strBase] at hb
+
+theorem decodeElems_length (w : Wire) (env : Env) (t : GoTy) :
+    ∀ (xs : List Json) (f : Nat) (vs : List GoVal), decodeElems w env f t xs = .ok vs → vs.length = xs.length := by
+  intro xs
+  induction xs with
+  | nil => intro f vs h; cases f <;> simp [decodeElems] at h; subst h; rfl
+  | cons x rest ih =>
+    intro f vs h
+    cases f with
+    | zero => simp [decodeElems] at h
+    | succ f =>
+      simp only [decodeElems, bind, Except.bind] at h
+      cases hd : decode w env f t x with
+      | error e => rw [hd] at h; cases h
+      | ok v =>
+        rw [hd] at h; simp only at h
+        cases hr : decodeElems w env f t rest with
+        | error e => rw [hr] at h; cases h
+        | ok vs' =>
+          rw [hr] at h; simp only [pure, Except.pure] at h
+          injection h with h; subst h
+          simp [ih f vs' hr]
+
+theorem valid_arr_count (defs : Spec.Defs) (ps : Schema) (j : Json) (F : Nat) (hr : ps.node.ref = "")
+    (ht : ps.node.types = ["array"]) (h : Spec.valid F defs ps j = true) :
+    ∃ xs, j = .arr xs ∧ Spec.itemsCountOK ps.node.minItems ps.node.maxItems xs.length = true := by
+  have hty := valid_scalar defs ps j F hr "array" ht h
+  cases F with
+  | zero => simp [Spec.valid] at h
+  | succ F =>
+    simp only [Spec.valid, hr, ne_eq, not_true_eq_false, ↓reduceIte, Bool.and_eq_true] at h
+    cases j <;> simp [Spec.hasType] at hty
+    rename_i xs
+    have := h.2
+    simp only [Bool.and_eq_true] at this
+    exact ⟨xs, rfl, this.1⟩
+
+/-- the slice an array member decodes to passes the depth-1 item-count check built from its schema's limits -/
+theorem arr_decode_passes (env : Env) (defs : Spec.Defs) (t : GoTy) (ps : Schema) (mn mx : Int)
+    (j : Json) (F g : Nat) (v : GoVal)
+    (hr : ps.node.ref = "") (ht : ps.node.types = ["array"]) (hn : ∀ n, t ≠ .named n) (hb : t ≠ .int .u8)
+    (hmn : mn = ps.node.minItems) (hmx : mx = ps.node.maxItems)
+    (hv : Spec.valid F defs ps j = true) (hd : decode .json env g (.slice t) j = .ok v) :
+    checkArray 1 v mn mx = true := by
+  obtain ⟨xs, rfl, hcount⟩ := valid_arr_count defs ps j F hr ht hv
+  cases g with
+  | zero => simp [decode] at hd
+  | succ g =>
+    have hdec : decode .json env (g + 1) (.slice t) (.arr xs) = (decodeElems .json env g t xs).map .slice := by
+      cases t <;> first
+        | (exfalso; exact hn _ rfl)
+        | (rename_i k; cases k <;> first | (exfalso; exact hb rfl) | simp [decode])
+        | simp [decode]
+    rw [hdec] at hd
+    cases hr' : decodeElems .json env g t xs with
+    | error e => rw [hr'] at hd; cases hd
+    | ok vs =>
+      rw [hr'] at hd
+      simp only [Except.map] at hd
+      injection hd with hd; subst hd
+      rw [C07.depth1_exact, decodeElems_length .json env t xs g vs hr', hmn, hmx]
+      exact hcount
+
+/-! ### the certificate with all three kinds of value validators -/
+
+/-- the check a value validator performs, on the field's value itself -/
+def passesOn (v : GoVal) : Validator → Bool
+  | .numeric _ nl c => checkNumeric v nl c
+  | .string _ mn mx pat nl => checkString v mn mx pat nl
+  | .array _ depth mn mx => checkArray depth v mn mx
+  | _ => true
+
+def fieldNameOf : Validator → String
+  | .numeric f _ _ => f | .string f _ _ _ _ => f | .array f _ _ _ => f | _ => ""
+
+/-- what `*Justified` gives: the field, its schema, and why an absent member is harmless -/
+structure JustFacts (fs : List Field) (s : Schema) (field : String) (fl : Field) (ps : Schema) : Prop where
+  mem : fl ∈ fs
+  name : fl.name = field
+  look : alookup fl.jsonKey s.node.props = some ps
+  noref : ps.node.ref = ""
+
+theorem find_facts (fs : List Field) (s : Schema) (field : String) (fl : Field) (ps : Schema)
+    (hfind : fs.find? (fun fl => fl.name = field) = some fl) (hl : alookup fl.jsonKey s.node.props = some ps)
+    (hr : ps.node.ref = "") : JustFacts fs s field fl ps :=
+  ⟨List.mem_of_find?_eq_some hfind, by simpa using List.find?_some hfind, hl, hr⟩
+
+
+/-- **C02 / C05 / C06 / C07, whole documents, completeness**: for a program `certAll` admits — structs whose validators are
+    exactly what the schema states: presence checks, numeric bounds, string length limits and patterns, array item
+    counts — every document of any size and depth that is valid under the schema and ordinary (`DocOKS`: keys and integers
+    as in `DocOK`, strings ASCII) is accepted by the generated code -/
+theorem certAll_accepts (env : Env) (defs : Spec.Defs) :
+    ∀ (f : Nat) (ty : GoTy) (s : Schema), certAll env defs f ty s = true →
+      ∀ (F : Nat) (j : Json), Spec.valid F defs s j = true → DocOKS env j → Acc .json env ty j := by
+  intro f
+  induction f with
+  | zero => intro ty s h; simp [certAll] at h
+  | succ f ih =>
+    intro ty s hc F j hv hdoc
+    simp only [certAll] at hc
+    by_cases hr : s.node.ref = ""
+    · simp only [hr, ne_eq, not_true_eq_false, ↓reduceIte] at hc
+      cases ty with
+      | ptr t => exact (acc_ptr_iff env t j).mpr (Or.inr (ih t s hc F j hv hdoc))
+      | named nm =>
+        simp only at hc
+        cases hres : env.resolve 8 nm with
+        | none => simp [hres] at hc
+        | some d =>
+          simp only [hres] at hc
+          cases hbody : d.body with
+          | enum a b c e g => simp [hbody] at hc
+          | «alias» t => simp [hbody] at hc
+          | plain vs m =>
+            cases hty : d.ty with
+            | strct fs =>
+              simp only [hbody, hty, Bool.and_eq_true, beq_iff_eq, Bool.or_eq_true, Bool.not_eq_true', Option.isNone_iff_eq_none,
+                List.isEmpty_iff, List.all_eq_true, decide_eq_true_eq] at hc
+              obtain ⟨⟨⟨⟨⟨⟨⟨⟨⟨⟨⟨⟨⟨⟨⟨hmeth, hmv⟩, _⟩, htypes⟩, _⟩, _⟩, _⟩, _⟩, haddl⟩, hnoaddl⟩, hlen⟩, hndN⟩, hndK⟩, hvs⟩, hfields⟩, hprops⟩ := hc
+              obtain ⟨kvs, rfl⟩ := valid_types_obj defs s j F hr htypes hv
+              obtain ⟨hreq, F', hvp⟩ := valid_obj_parts defs s kvs F hr hv
+              -- what the certificate says about one declared property
+              have hprop : ∀ k ps, alookup k s.node.props = some ps →
+                  ∃ fld, bindKey fs k = some fld ∧ fld.jsonKey = k ∧ certAll env defs f fld.ty ps = true := by
+                intro k ps hl
+                have hp' := hprops (k, ps) (alookup_mem k ps s.node.props hl)
+                cases hb : bindKey fs k with
+                | none => simp [hb] at hp'
+                | some fld => simp only [hb, Bool.and_eq_true, beq_iff_eq] at hp'; exact ⟨fld, rfl, hp'.1, hp'.2⟩
+              -- an entry that binds is a declared property, bound to ITS field
+              have hbound : ∀ p ∈ kvs, ∀ fld, bindKey fs p.1 = some fld →
+                  ∃ ps, alookup p.1 s.node.props = some ps ∧ fld.jsonKey = p.1 ∧ certAll env defs f fld.ty ps = true ∧
+                    ∃ F'', Spec.valid F'' defs ps p.2 = true := by
+                intro p hp fld hb
+                cases hl : alookup p.1 s.node.props with
+                | some ps =>
+                  obtain ⟨fld', hb', hk', hcs⟩ := hprop p.1 ps hl
+                  rw [hb] at hb'; injection hb' with hb'; subst hb'
+                  obtain ⟨F'', hvv⟩ := validProps_mem defs s.node.props s.node.addl kvs kvs F' hvp p hp ps hl
+                  exact ⟨ps, rfl, hk', hcs, F'', hvv⟩
+                | none =>
+                  exfalso
+                  have hk : ∀ fl ∈ fs, fl.jsonKey ≠ p.1 := by
+                    intro fl hfl e
+                    have := hfields fl hfl
+                    have hin : p.1 ∈ akeys s.node.props := by simpa [e] using this
+                    exact (alookup_none_iff_not_mem p.1 s.node.props).mp hl hin
+                  have hfold : ∀ fl ∈ fs, foldKey fl.jsonKey = foldKey p.1 → fl.jsonKey = p.1 := by
+                    intro fl hfl e
+                    exact hdoc.base.keys p.1 (.here kvs (by simp only [akeys, List.mem_map]; exact ⟨p, hp, rfl⟩)) nm d fs fl hres hty hfl e
+                  rw [bindKey_none fs p.1 hfold hk] at hb; cases hb
+              have hentries : ∀ p ∈ kvs, ∀ fld, bindW .json fs p.1 = some fld → Acc .json env fld.ty p.2 := by
+                intro p hp fld hb
+                obtain ⟨ps, _, _, hcs, F'', hvv⟩ := hbound p hp fld hb
+                exact ih fld.ty ps hcs F'' p.2 hvv (hdoc.ofMember p hp)
+              obtain ⟨f0, v0, hdec⟩ := (acc_struct_iff .json env fs kvs).mpr hentries
+              rw [acc_named_iff env nm d (.obj kvs) hres]
+              cases hm : m with
+              | false =>
+                have hvsE : vs = [] := by rcases hmv with h | h <;> simp_all
+                have : d.hasMethod = false := by rw [hmeth, hm]
+                simp only [this, Bool.false_eq_true, ↓reduceIte, hty, GoTy.isFmt, true_and]
+                exact ⟨f0, v0, hdec⟩
+              | true =>
+                have : d.hasMethod = true := by rw [hmeth, hm]
+                simp only [this, ↓reduceIte]
+                -- the decoded struct value
+                obtain ⟨f1, rfl⟩ : ∃ f1, f0 = f1 + 1 := by
+                  cases f0 with
+                  | zero => simp [decode] at hdec
+                  | succ f1 => exact ⟨f1, rfl⟩
+                have hdecS : decode .json env (f1 + 1) (.strct fs) (.obj kvs) =
+                    (decodeStruct .json env f1 fs kvs (zeroOf.zeroFields env 32 fs)).map .strct := by simp [decode]
+                rw [hdecS] at hdec
+                cases hr0 : decodeStruct .json env f1 fs kvs (zeroOf.zeroFields env 32 fs) with
+                | error e => rw [hr0] at hdec; cases hdec
+                | ok r =>
+                  rw [hr0] at hdec
+                  have hv0 : v0 = .strct r := by simp only [Except.map] at hdec; injection hdec with h; exact h.symm
+                  subst hv0
+                  -- the field lemma, with "every value validator on this field passes" as the predicate
+                  let Good : String → GoVal → Prop := fun name v => ∀ x ∈ vs, fieldNameOf x = name → passesOn v x = true
+                  have hjust : ∀ x ∈ vs, valJustified fs s x = true := hvs
+                  have hascii : ∀ p ∈ kvs, ∀ t, p.2 = .str t → C06.IsAscii t := by
+                    intro p hp t e
+                    exact hdoc.strs t (.inObj kvs p hp (by rw [e]; exact .here))
+                  have hgoodE : ∀ p ∈ kvs, ∀ fld, bindW .json fs p.1 = some fld → ∀ g v, decode .json env g fld.ty p.2 = .ok v → Good fld.name v := by
+                    intro p hp fld hb g v hd x hx hname
+                    obtain ⟨ps, hl, hk, _, F'', hvv⟩ := hbound p hp fld hb
+                    have hj := hjust x hx
+                    have hfldmem := mem_of_bindKey fs p.1 fld hb
+                    cases x with
+                    | numeric field nl c =>
+                      simp only [fieldNameOf] at hname; subst hname
+                      simp only [valJustified, Bool.and_eq_true, bne_iff_ne, ne_eq] at hj
+                      obtain ⟨_, hj⟩ := hj
+                      unfold numJustified at hj
+                      cases hfind : fs.find? (fun fl => fl.name = fld.name) with
+                      | none => simp [hfind] at hj
+                      | some fl =>
+                        have hflEq : fl = fld := eq_of_mem_same_name fs (·.name) hndN fl fld (List.mem_of_find?_eq_some hfind) hfldmem (by simpa using List.find?_some hfind)
+                        subst hflEq
+                        simp only [hfind, hk, hl, Bool.and_eq_true, beq_iff_eq, decide_eq_true_eq, Option.isNone_iff_eq_none, Bool.or_eq_true] at hj
+                        obtain ⟨⟨⟨⟨⟨⟨⟨⟨⟨⟨hpr, hnb⟩, hpt⟩, hmu⟩, hlo⟩, hhi⟩, hxlo⟩, hxhi⟩, hx1⟩, hx2⟩, _⟩ := hj
+                        exact num_decode_passes env defs fl.ty ps nl c p.2 F'' g v hpr hnb hpt hmu hlo hhi hxlo hxhi hx1 hx2 hvv hd
+                    | string field mn mx pat nl =>
+                      simp only [fieldNameOf] at hname; subst hname
+                      simp only [valJustified, Bool.and_eq_true, bne_iff_ne, ne_eq] at hj
+                      obtain ⟨_, hj⟩ := hj
+                      unfold strJustified at hj
+                      cases hfind : fs.find? (fun fl => fl.name = fld.name) with
+                      | none => simp [hfind] at hj
+                      | some fl =>
+                        have hflEq : fl = fld := eq_of_mem_same_name fs (·.name) hndN fl fld (List.mem_of_find?_eq_some hfind) hfldmem (by simpa using List.find?_some hfind)
+                        subst hflEq
+                        simp only [hfind, hk, hl, Bool.and_eq_true, beq_iff_eq, decide_eq_true_eq, Bool.or_eq_true] at hj
+                        obtain ⟨⟨⟨⟨⟨⟨hpr, hsb⟩, hpt⟩, hmn⟩, hmx⟩, hpa⟩, _⟩ := hj
+                        exact str_decode_passes env defs fl.ty ps nl mn mx pat p.2 F'' g v hpr hsb hpt hmn hmx hpa (hascii p hp) hvv hd
+                    | array field depth mn mx =>
+                      simp only [fieldNameOf] at hname; subst hname
+                      simp only [valJustified, Bool.and_eq_true, bne_iff_ne, ne_eq, beq_iff_eq] at hj
+                      obtain ⟨⟨_, hdep⟩, hj⟩ := hj
+                      subst hdep
+                      unfold arrJustified at hj
+                      cases hfind : fs.find? (fun fl => fl.name = fld.name) with
+                      | none => simp [hfind] at hj
+                      | some fl =>
+                        have hflEq : fl = fld := eq_of_mem_same_name fs (·.name) hndN fl fld (List.mem_of_find?_eq_some hfind) hfldmem (by simpa using List.find?_some hfind)
+                        subst hflEq
+                        simp only [hfind, hk, hl, Bool.and_eq_true, beq_iff_eq, decide_eq_true_eq] at hj
+                        obtain ⟨⟨⟨⟨⟨hpr, hsl⟩, hpt⟩, hmn⟩, hmx⟩, _⟩ := hj
+                        cases hfty : fl.ty with
+                        | slice t =>
+                          rw [hfty] at hd hsl
+                          simp only [sliceElemOK] at hsl
+                          exact arr_decode_passes env defs t ps mn mx p.2 F'' g v hpr hpt
+                            (by intro n e; subst e; simp at hsl) (by intro e; subst e; simp at hsl) hmn hmx hvv hd
+                        | _ => rw [hfty] at hsl; simp [sliceElemOK] at hsl
+                    | required k => rfl
+                    | _ => simp [valJustified] at hj
+                  have hkeysE : ∀ p ∈ kvs, ∀ fld, bindW .json fs p.1 = some fld → (alookup fld.name (zeroOf.zeroFields env 32 fs)).isSome = true := by
+                    intro p hp fld hb
+                    obtain ⟨g, hg⟩ := zeroFields_lookup env fs 32 (by omega) hndN fld (mem_of_bindKey fs p.1 fld hb)
+                    rw [hg]; rfl
+                  have hfield := decodeStruct_field .json env fs Good kvs f1 _ r hgoodE hkeysE hr0
+                  -- a required member is bound by some entry
+                  have hreqBound : ∀ fl ∈ fs, ∀ ps, alookup fl.jsonKey s.node.props = some ps → s.node.required.contains fl.jsonKey = true →
+                      BindsTo .json fs fl.name kvs := by
+                    intro fl hflmem ps hl hreqk
+                    rw [List.all_eq_true] at hreq
+                    have hhas := hreq fl.jsonKey (by simpa using hreqk)
+                    simp only [ahas] at hhas
+                    cases hlk : alookup fl.jsonKey kvs with
+                    | none => rw [hlk] at hhas; cases hhas
+                    | some x =>
+                      have hmem := alookup_mem fl.jsonKey x kvs hlk
+                      obtain ⟨fld', hb', hk', _⟩ := hprop fl.jsonKey ps hl
+                      have : fld' = fl := eq_of_mem_same_name fs (·.jsonKey) hndK fld' fl (mem_of_bindKey fs _ fld' hb') hflmem hk'
+                      subst this
+                      exact ⟨(fld'.jsonKey, x), hmem, fld', hb', rfl⟩
+                  -- all after-validators pass
+                  have hafter : ∀ x ∈ vs, afterPasses (.strct r) x = true := by
+                    intro x hx
+                    have hj := hjust x hx
+                    cases x with
+                    | numeric field nl c =>
+                      simp only [valJustified, Bool.and_eq_true, bne_iff_ne, ne_eq] at hj
+                      obtain ⟨hfne, hj⟩ := hj
+                      show checkNumeric (fieldOf (.strct r) field) nl c = true
+                      simp only [fieldOf, hfne, ↓reduceIte]
+                      rcases hfield field with ⟨_, v, hlv, hg⟩ | ⟨hnb, he⟩
+                      · rw [hlv]; exact hg _ hx rfl
+                      · unfold numJustified at hj
+                        cases hfind : fs.find? (fun fl => fl.name = field) with
+                        | none => simp [hfind] at hj
+                        | some fl =>
+                          have hflmem := List.mem_of_find?_eq_some hfind
+                          have hfln : fl.name = field := by simpa using List.find?_some hfind
+                          cases hl : alookup fl.jsonKey s.node.props with
+                          | none => simp [hfind, hl] at hj
+                          | some ps =>
+                            simp only [hfind, hl, Bool.and_eq_true, beq_iff_eq, decide_eq_true_eq, Option.isNone_iff_eq_none, Bool.or_eq_true] at hj
+                            obtain ⟨⟨⟨⟨⟨⟨⟨⟨⟨⟨_, hnbase⟩, _⟩, _⟩, _⟩, _⟩, _⟩, _⟩, _⟩, _⟩, hnlreq⟩ := hj
+                            obtain ⟨g, hg⟩ := zeroFields_lookup env fs 32 (by omega) hndN fl hflmem
+                            rw [he, ← hfln, hg]
+                            rcases hnlreq with hnl | hreqk
+                            · subst hnl
+                              cases hfty : fl.ty with
+                              | ptr t => cases g <;> simp [zeroOf, checkNumeric, derefIf, NumCheck.accepts]
+                              | int k => rw [hfty] at hnbase; cases k <;> simp [numBase] at hnbase
+                              | _ => rw [hfty] at hnbase; simp [numBase] at hnbase
+                            · exfalso; rw [← hfln] at hnb; exact hnb (hreqBound fl hflmem ps hl hreqk)
+                    | string field mn mx pat nl =>
+                      simp only [valJustified, Bool.and_eq_true, bne_iff_ne, ne_eq] at hj
+                      obtain ⟨hfne, hj⟩ := hj
+                      show checkString (fieldOf (.strct r) field) mn mx pat nl = true
+                      simp only [fieldOf, hfne, ↓reduceIte]
+                      rcases hfield field with ⟨_, v, hlv, hg⟩ | ⟨hnb, he⟩
+                      · rw [hlv]; exact hg _ hx rfl
+                      · unfold strJustified at hj
+                        cases hfind : fs.find? (fun fl => fl.name = field) with
+                        | none => simp [hfind] at hj
+                        | some fl =>
+                          have hflmem := List.mem_of_find?_eq_some hfind
+                          have hfln : fl.name = field := by simpa using List.find?_some hfind
+                          cases hl : alookup fl.jsonKey s.node.props with
+                          | none => simp [hfind, hl] at hj
+                          | some ps =>
+                            simp only [hfind, hl, Bool.and_eq_true, beq_iff_eq, decide_eq_true_eq, Bool.or_eq_true] at hj
+                            obtain ⟨⟨⟨⟨⟨⟨_, hsb⟩, _⟩, _⟩, _⟩, _⟩, hnlreq⟩ := hj
+                            obtain ⟨g, hg⟩ := zeroFields_lookup env fs 32 (by omega) hndN fl hflmem
+                            rw [he, ← hfln, hg]
+                            rcases hnlreq with hnl | hreqk
+                            · subst hnl
+                              cases hfty : fl.ty with
+                              | ptr t => cases g <;> simp [zeroOf, checkString, derefIf]
+                              | _ => rw [hfty] at hsb; simp [strBase] at hsb
+                            · exfalso; rw [← hfln] at hnb; exact hnb (hreqBound fl hflmem ps hl hreqk)
+                    | array field depth mn mx =>
+                      simp only [valJustified, Bool.and_eq_true, bne_iff_ne, ne_eq, beq_iff_eq] at hj
+                      obtain ⟨⟨hfne, hdep⟩, hj⟩ := hj
+                      subst hdep
+                      show checkArray 1 (fieldOf (.strct r) field) mn mx = true
+                      simp only [fieldOf, hfne, ↓reduceIte]
+                      rcases hfield field with ⟨_, v, hlv, hg⟩ | ⟨hnb, he⟩
+                      · rw [hlv]; exact hg _ hx rfl
+                      · unfold arrJustified at hj
+                        cases hfind : fs.find? (fun fl => fl.name = field) with
+                        | none => simp [hfind] at hj
+                        | some fl =>
+                          have hflmem := List.mem_of_find?_eq_some hfind
+                          have hfln : fl.name = field := by simpa using List.find?_some hfind
+                          cases hl : alookup fl.jsonKey s.node.props with
+                          | none => simp [hfind, hl] at hj
+                          | some ps =>
+                            simp only [hfind, hl, Bool.and_eq_true, beq_iff_eq, decide_eq_true_eq] at hj
+                            obtain ⟨⟨⟨⟨⟨_, hsl⟩, _⟩, _⟩, _⟩, hmx0⟩ := hj
+                            obtain ⟨g, hg⟩ := zeroFields_lookup env fs 32 (by omega) hndN fl hflmem
+                            rw [he, ← hfln, hg]
+                            cases hfty : fl.ty with
+                            | slice t =>
+                              have hz : zeroOf env g (.slice t) = .nil := by cases g <;> simp [zeroOf]
+                              simp only [hz, Option.getD_some]
+                              exact C07.absent_or_null_unchecked mn mx hmx0 0
+                            | _ => rw [hfty] at hsl; simp [sliceElemOK] at hsl
+                    | required k => rfl
+                    | _ => simp [valJustified] at hj
+                  let g := max (f1 + 1) (vs.length + 1)
+                  have hdec' : decode .json env g d.ty (.obj kvs) = .ok (.strct r) := by
+                    rw [hty]
+                    exact Proofs.decode_ok_mono .json env _ _ _ (f1 + 1) g (Nat.le_max_left ..) (by rw [hdecS, hr0]; rfl)
+                  refine ⟨g + 1, .strct r, ?_⟩
+                  rw [struct_method_ok_iff .json env d vs m fs kvs g hbody hty hnoaddl
+                    (by have : vs.length + 1 ≤ g := Nat.le_max_right ..; omega)
+                    (by intro v hv'; have := hjust v hv'; cases v <;> simp [valJustified] at this <;> rfl)
+                    (by
+                      intro v hv'
+                      have hj := hjust v hv'
+                      cases v with
+                      | numeric field nl c =>
+                        simp only [valJustified, Bool.and_eq_true] at hj
+                        obtain ⟨_, hj⟩ := hj
+                        unfold numJustified at hj
+                        cases hfind : fs.find? (fun fl => fl.name = field) with
+                        | none => simp [hfind] at hj
+                        | some fl =>
+                          cases hl : alookup fl.jsonKey s.node.props with
+                          | none => simp [hfind, hl] at hj
+                          | some ps =>
+                            simp only [hfind, hl, Bool.and_eq_true, Option.isNone_iff_eq_none] at hj
+                            have hmu : c.mult = none := hj.1.1.1.1.1.1.1.2
+                            simp [Checkable, nonDyadicFloat, hmu]
+                      | dflt a b c => simp [valJustified] at hj
+                      | _ => rfl)]
+                  refine ⟨?_, hdec', hafter⟩
+                  intro k hk
+                  have := hjust _ hk
+                  simp only [valJustified] at this
+                  rw [List.all_eq_true] at hreq
+                  exact hreq k (by simpa using this)
+            | _ => simp [hbody, hty] at hc
+      | slice t =>
+        simp only [Bool.and_eq_true, beq_iff_eq] at hc
+        obtain ⟨⟨⟨⟨⟨⟨htypes, _⟩, _⟩, _⟩, _⟩, htn⟩, hit⟩ := hc
+        cases hitems : s.node.items with
+        | none => simp [hitems] at hit
+        | some it =>
+          simp only [hitems] at hit
+          obtain ⟨xs, rfl, F', hve⟩ := valid_arr_parts defs s j F hr htypes it hitems hv
+          rw [acc_slice_iff env t xs (by intro n e; subst e; simp at htn) (by intro e; subst e; simp at htn)]
+          intro x hx
+          obtain ⟨F'', hvx⟩ := validElems_mem defs it xs F' hve x hx
+          exact ih t it hit F'' x hvx (hdoc.ofElem x hx)
+      | string =>
+        have ht : s.node.types = ["string"] := by
+          simp only [Bool.and_eq_true, beq_iff_eq] at hc; exact hc.1
+        have := valid_scalar defs s j F hr "string" ht hv
+        cases j <;> simp [Spec.hasType] at this
+        exact (acc_string_iff env _).mpr (Or.inr ⟨_, rfl⟩)
+      | bool =>
+        have ht : s.node.types = ["boolean"] := by simpa using hc
+        have := valid_scalar defs s j F hr "boolean" ht hv
+        cases j <;> simp [Spec.hasType] at this
+        exact (acc_bool_iff env _).mpr (Or.inr ⟨_, rfl⟩)
+      | float64 =>
+        have ht : s.node.types = ["number"] := by simpa using hc
+        have := valid_scalar defs s j F hr "number" ht hv
+        cases j <;> simp [Spec.hasType] at this
+        exact (acc_float_iff env _).mpr (Or.inr ⟨_, rfl⟩)
+      | int k =>
+        cases k <;> simp at hc
+        have ht : s.node.types = ["integer"] := hc
+        have := valid_scalar defs s j F hr "integer" ht hv
+        cases j <;> simp [Spec.hasType] at this
+        rename_i q
+        exact (acc_int_iff env .int _).mpr (Or.inr ⟨q, rfl, this, hdoc.base.ints q .here this⟩)
+      | iface => simp at hc
+      | strct fs => simp at hc
+      | nullTy => simp at hc
+      | map t => simp at hc
+      | qual a b => simp at hc
+      | custom a b => simp at hc
+      | fmt k => simp at hc
+    · -- a reference: the target's schema decides
+      simp only [ne_eq, hr, not_false_eq_true, ↓reduceIte] at hc
+      cases F with
+      | zero => simp [Spec.valid] at hv
+      | succ F =>
+        simp only [Spec.valid, ne_eq, hr, not_false_eq_true, ↓reduceIte] at hv
+        cases hn : Spec.refName s.node.ref with
+        | none => simp [hn] at hc
+        | some name =>
+          simp only [hn] at hc hv
+          cases hl : alookup name defs with
+          | none => simp [hl] at hc
+          | some t =>
+            simp only [hl] at hc hv
+            exact ih ty t hc F j hv hdoc
+
+
+
+
+/-- `certAll` admits ordinary generated programs with all three kinds of value validators (non-vacuity) -/
+def exEnvA : Env := [
+  { name := "Root", ty := .strct [
+      { name := "Name", jsonName := "name", ty := .string, tags := "", jsonKey := "name", yamlKey := "name", omitEmpty := false },
+      { name := "Nick", jsonName := "nick", ty := .ptr .string, tags := "", jsonKey := "nick", yamlKey := "nick", omitEmpty := true },
+      { name := "Age", jsonName := "age", ty := .ptr (.int .int), tags := "", jsonKey := "age", yamlKey := "age", omitEmpty := true },
+      { name := "Tags", jsonName := "tags", ty := .slice .string, tags := "", jsonKey := "tags", yamlKey := "tags", omitEmpty := true }],
+    body := .plain [.required "name",
+      .string "Name" 3 8 "" false, .string "Nick" 0 4 "^a" true,
+      .numeric "Age" true { lo := some 0, hi := some 150, roundToInt := true },
+      .array "Tags" 1 1 3] true }]
+
+def exSchemaA : Schema := .mk { types := ["object"], required := ["name"], props := [
+  ("name", .mk { types := ["string"], minLength := 3, maxLength := 8 }),
+  ("nick", .mk { types := ["string"], maxLength := 4, pattern := "^a" }),
+  ("age", .mk { types := ["integer"], minimum := some 0, maximum := some 150 }),
+  ("tags", .mk { types := ["array"], minItems := 1, maxItems := 3, items := some (.mk { types := ["string"] }) })] }
+
+example : certAll exEnvA [] 4 (.named "Root") exSchemaA = true := by decide
+
 end GJS.Props.C02
